@@ -323,7 +323,8 @@ def s_abort(E, a, info):
     raise Abort('abort()')
 
 
-@summ('core::panicking::assert_failed', 'core::panicking::panic', 'core::panicking::panic_fmt',
+@summ('panic_fmt', 'panic', 'assert_failed', 'panic_display', 'unreachable_display', 'panic_str', 'core::panicking::panic_display',
+      'core::panicking::assert_failed', 'core::panicking::panic', 'core::panicking::panic_fmt',
       'core::panicking::unreachable_display', 'core::panicking::panic_explicit', 'std::rt::begin_panic',
       'core::panicking::panic_nounwind')
 def s_panic(E, a, info):
@@ -1122,7 +1123,7 @@ def s_iter_into_iter(E, a, info):
         if isinstance(v, Own) and E.heap[v.obj].kind == 'vec':
             return Agg('SliceIter', None, (v.obj, 0))
     if isinstance(a[0], Agg) and a[0].name in ('MapIter', 'IntoIter', 'ExtractIf', 'MapAd', 'FilterAd', 'Range',
-                                               'KeysIter', 'ValuesIter', 'Drain', 'VecIntoIter', 'SliceIter'):
+                                               'KeysIter', 'ValuesIter', 'Drain', 'VecIntoIter', 'SliceIter', 'OptIter', 'FlatMapAd'):
         return a[0]
     raise Unsupported('into_iter of %r' % (a[0],))
 
@@ -1851,3 +1852,88 @@ def s_set_get(E, a, info):
 @summ('HashMap::extend', 'HashSet::extend')
 def s_map_extend(E, a, info):
     raise Unsupported(info['key'])
+
+
+# panic / assertion message construction (the message itself is irrelevant to every property)
+@summ('Arguments::from_str', 'Arguments::new', 'Arguments::new_const', 'Arguments::new_v1', 'core::fmt::rt::Argument::new_display',
+      'core::fmt::rt::Argument::new_debug', 'core::fmt::rt::Argument::new_pointer', 'Arguments::as_str')
+def s_fmt_args(E, a, info):
+    return Opaque('fmt')
+
+
+@summ('Option::get_or_insert_with')
+def s_opt_get_or_insert_with(E, a, info):
+    cur = E.read(a[0])
+    if cur.variant != 'Some':
+        E.write(a[0], some(E.call_closure(a[1], [])))
+    return a[0].field(0)
+
+
+@summ('Option::get_or_insert_default')
+def s_opt_get_or_insert_default(E, a, info):
+    raise Unsupported('Option::get_or_insert_default')
+
+
+@summ('Option::iter', 'Option::iter_mut')
+def s_opt_iter(E, a, info):
+    return Agg('OptIter', None, (a[0], False))
+
+
+@summ('<* as Iterator>::flat_map')
+def s_iter_flat_map(E, a, info):
+    return Agg('FlatMapAd', None, (a[0], a[1], NONE))
+
+
+@summ('<* as Iterator>::flatten')
+def s_iter_flatten(E, a, info):
+    return Agg('FlatMapAd', None, (a[0], NONE, NONE))
+
+
+_iter_next_2 = iter_next
+
+
+def iter_next(E, itptr):      # noqa: F811
+    it = E.read(itptr)
+    if isinstance(it, Agg) and it.name == 'OptIter':
+        p, done = it.fields
+        if done:
+            return NONE
+        E.write(itptr, Agg('OptIter', None, (p, True)))
+        cur = E.read(p)
+        if cur.variant == 'Some':
+            return some(p.field(0))
+        return NONE
+    if isinstance(it, Agg) and it.name == 'FlatMapAd':
+        outer, clos, inner = it.fields
+        while True:
+            if not (isinstance(inner, Agg) and inner.name == 'Option'):
+                tmp = Ptr(E.new_obj('tmp', inner))
+                r = iter_next(E, tmp)
+                inner = E.read(tmp)
+                E.write(itptr, Agg('FlatMapAd', None, (outer, clos, inner)))
+                if r.variant == 'Some':
+                    return r
+                inner = NONE
+            tmpo = Ptr(E.new_obj('tmp', outer))
+            o = iter_next(E, tmpo)
+            outer = E.read(tmpo)
+            if o.variant == 'None':
+                E.write(itptr, Agg('FlatMapAd', None, (outer, clos, NONE)))
+                return NONE
+            nxt = o.fields[0] if (isinstance(clos, Agg) and clos.name == 'Option') else E.call_closure(clos, [o.fields[0]])
+            inner = s_iter_into_iter(E, [nxt], dict(key='into_iter', gen=[], frame=None, self_ty=None, callee=''))
+            E.write(itptr, Agg('FlatMapAd', None, (outer, clos, inner)))
+    return _iter_next_2(E, itptr)
+
+
+SUMMARIES['<Iter as Iterator>::next'] = lambda E, a, info: iter_next(E, a[0])
+SUMMARIES['<* as Iterator>::next'] = lambda E, a, info: iter_next(E, a[0])
+SUMMARIES['<Iter as Iterator>::any'] = lambda E, a, info: s_iter_any(E, a, info)
+
+
+@summ('core::slice::<impl [T]>::contains')
+def s_slice_contains(E, a, info):
+    kind, ref, items = _slice(E, a[0])
+    key = E.read(a[1])
+    E.work += len(items)
+    return any(E.key_eq(x, key) for x in items)
